@@ -193,6 +193,8 @@ pub fn gen_history(rng: &mut Rng, l: &Layout, maxlen: usize, twin: bool, has_bui
     let top = top_writable(l, &c);
     let bargs = builder_args(l);
     let mut last_write: Option<(usize, u32)> = None;
+    // last value this history wrote to a cell, for "same value again" / "one bit changed" writes
+    let mut last_value: std::collections::BTreeMap<(usize, u32), u128> = std::collections::BTreeMap::new();
     let mut n = 0;
     while n < len {
         n += 1;
@@ -224,7 +226,20 @@ pub fn gen_history(rng: &mut Rng, l: &Layout, maxlen: usize, twin: bool, has_bui
                         (f, gen_index(rng, l.fields[f].count()))
                     }
                 };
-                let v = Hex(gen_value(rng, l, f));
+                let mut v = Hex(gen_value(rng, l, f));
+                if let (Some(&prev), None) = (last_value.get(&(f, i)), l.fields[f].legal_values()) {
+                    match rng.below(100) {
+                        // the value that is (probably) already there
+                        0..=6 => v = Hex(prev),
+                        // exactly one bit different from it
+                        7..=11 => v = Hex(prev ^ (1u128 << rng.below(l.fields[f].value_width() as u64))),
+                        // +1 / -1 (carries and borrows across the whole field)
+                        12..=14 => v = Hex(prev.wrapping_add(1) & mask(l.fields[f].value_width())),
+                        15..=16 => v = Hex(prev.wrapping_sub(1) & mask(l.fields[f].value_width())),
+                        _ => {}
+                    }
+                }
+                last_value.insert((f, i), v.0);
                 let slot = rng.usize_below(nslots);
                 // C11 only: now and then address an element at or just beyond `count` (must
                 // panic; if it returns normally it is an operation like any other)
